@@ -774,6 +774,8 @@ def shrink(c):
         return c
     cur = c
     for it in range(10):
+        if core.over_budget():
+            break
         cands = shrink_candidates(cur)
         if not cands:
             break
